@@ -75,6 +75,15 @@ func (ls2 *LeaseSet2) Verify() error {
 // Otherwise, the Destination's signing public key is returned.
 func (ls2 *LeaseSet2) signingPublicKeyForVerification() (types.SigningPublicKey, error) {
 	if ls2.HasOfflineKeys() && ls2.offlineSignature != nil {
+		// The transient key may only stand in for the Destination's key if the
+		// Destination's key signed the offline block (expires, sigtype, key).
+		destKey, err := ls2.destination.SigningPublicKey()
+		if err != nil {
+			return nil, oops.Errorf("failed to get signing public key from Destination: %w", err)
+		}
+		if err := verifyOfflineSignatureAuthorization(destKey, ls2.offlineSignature.SignedData(), ls2.offlineSignature.Signature()); err != nil {
+			return nil, err
+		}
 		// Use transient signing public key from offline signature
 		transientKeyBytes := ls2.offlineSignature.TransientPublicKey()
 		transientSigType := ls2.offlineSignature.TransientSigType()
@@ -91,4 +100,18 @@ func (ls2 *LeaseSet2) signingPublicKeyForVerification() (types.SigningPublicKey,
 		return nil, oops.Errorf("failed to get signing public key from Destination: %w", err)
 	}
 	return spk, nil
+}
+
+// verifyOfflineSignatureAuthorization checks that the offline signature block was
+// signed by the Destination's own signing key, which is what authorises the
+// transient key to sign on the Destination's behalf.
+func verifyOfflineSignatureAuthorization(destKey types.SigningPublicKey, signedData, sig []byte) error {
+	verifier, err := destKey.NewVerifier()
+	if err != nil {
+		return oops.Errorf("failed to create verifier for offline signature: %w", err)
+	}
+	if err := verifier.Verify(signedData, sig); err != nil {
+		return oops.Errorf("offline signature is not signed by the Destination: %w", err)
+	}
+	return nil
 }
